@@ -103,9 +103,9 @@ func (p *Program) ApplyComponent(name string, prog *Program, progFilePath string
 		}
 
 		for _, slot := range comp.Slots {
-			slotStmt := findSlotStmt(prog.Statements, slot.Name.Value)
+			slotStmts := findSlotStmts(prog.Statements, slot.Name.Value)
 
-			if slotStmt == nil {
+			if len(slotStmts) == 0 {
 				if slot.Name.Value == "" {
 					return fail.New(prog.Line(), progFilePath, "parser",
 						fail.ErrDefaultSlotNotDefined, name)
@@ -115,7 +115,10 @@ func (p *Program) ApplyComponent(name string, prog *Program, progFilePath string
 					fail.ErrSlotNotDefined, slot.Name.Value, name)
 			}
 
-			slotStmt.Body = slot.Body
+			// every placeholder of that name shows the body
+			for _, slotStmt := range slotStmts {
+				slotStmt.Body = slot.Body
+			}
 		}
 
 		comp.Block = prog
